@@ -107,6 +107,7 @@ func genC04(r *rng, n int) {
 	for hi := 0; hi < nh; hi++ {
 		g := newTgen(r.fork())
 		g.maxDepth = 3
+		g.allowReq = true // required / optional / default fields at every level (name-addressed edits consult the field descriptor)
 		root := g.genStruct(0)
 		if r.chance(30) {
 			// a map (keyed by double / struct / string / i32) of structs: paths through a map entry that end in a field
